@@ -58,6 +58,12 @@ def _(): return word_ind(lambda w: ForAll([k_, S_], Implies(T.over(S_, w), T.ove
 def _(): return word_ind(lambda w: ForAll([k_, S_], Implies(T.over(S_, w), T.over(S_, T.drop(k_, w)))))
 
 
+@proof('word', 'take-app')
+def _(): return word_ind(lambda v: ForAll([u_], T.take(T.wlen(u_), T.app(u_, v)) == u_))
+@proof('word', 'drop-app')
+def _(): return word_ind(lambda v: ForAll([u_], T.drop(T.wlen(u_), T.app(u_, v)) == v))
+
+
 @proof('dfa', 'dhat-closed')
 def _():
     D = SV(REC('DFA'), T._D); q = Const('q_', Atom)
